@@ -80,7 +80,7 @@ def rewritten_attrs(f: FuncInfo, recv: ClassInfo | None = None):
     return out, leaves, shallow
 
 
-def traversed_attrs(f: FuncInfo) -> set[str]:
+def traversed_attrs(f: FuncInfo, recv: ClassInfo | None = None) -> set[str]:
     selfname = f.params[0]
     out = set()
     for n in ast.walk(f.node):
@@ -88,6 +88,12 @@ def traversed_attrs(f: FuncInfo) -> set[str]:
             a = self_attr(n, selfname)
             if a:
                 out.add(a)
+        if (isinstance(n, ast.Call) and isinstance(n.func, ast.Attribute) and n.func.attr == "nodes_" and isinstance(n.func.value, ast.Call)
+                and isinstance(n.func.value.func, ast.Name) and n.func.value.func.id == "super"):
+            r = recv or f.cls
+            parent = r.resolve_after(f.cls, "nodes_") if r is not None else None
+            if parent is not None and parent.cls.name != "Node":
+                out |= traversed_attrs(parent, r)
     return out
 
 
@@ -145,7 +151,7 @@ def check(program: Program, run: Run) -> None:
                     ra = rp[4:-1]
                 rendered.setdefault(ra, part)
         nf = c.resolve("nodes_")
-        traversed = (traversed_attrs(nf) - {"table"}) if nf is not None and nf.cls.name != "Node" else set()
+        traversed = (traversed_attrs(nf, c) - {"table"}) if nf is not None and nf.cls.name != "Node" else set()
         rf = c.resolve("replace_table")
         need = set(rendered) | traversed
         if rf is None or rf is noop:
